@@ -1452,6 +1452,9 @@ class AdapterIndex:
             if length < best_m:
                 # No chance of getting the same or a higher number of matches, so we can stop early
                 break
+            if length > len(sequence):
+                # The read is shorter than the strings of this length in the index
+                continue
             affix = self._make_affix(affix, length)
             if "N" in affix:
                 result = self._lookup_with_n(affix)
